@@ -700,6 +700,47 @@ _more("C18", "SESSION 5 (Conn/C18_Step*.v, 23 theorems): ALL clauses are theorem
       "everything is segmented or the peer window was the limit), c18_drain_sends_every_trace, c18_buffered_segmented_every_trace; the guard "
       "c18_pre is a proved invariant (table invariant TI); c18_off_probe_guard_is_needed (witness). The PARTIAL remarks above are superseded.")
 
+# ----------------------------------------------------------------------------- session 5, second half
+CHECKS["C10"]["text"] = CHECKS["C10"]["text"].replace(
+    "their evaluation on implementation traces is not wired yet (the disp_hostile correspondence runs).",
+    "extracted and evaluated on the implementation's own observations (component disp_hostile: c10_disp_step_ok on every run_once whose "
+    "recv arm fired - about 12 800 steps / 1370 cases at quick tier, 3100 of them raw datagrams, 2100 garbage - c10_disp_bounds_ok on "
+    "every state; an ERR or PANIC of run_once is a failure).")
+_more("C13", "SESSION 5 (Sock/DispC13_*.v): c13_pending_ok - every pending connect is accounted for, slot by slot: a step fills exactly one "
+      "empty slot at the address of the single SYN it sent, or frees exactly one occupied slot (control / recv step that sent no SYN), or "
+      "refuses with four pending, or moves nothing; at most one address changes - THEOREM of every model step and every op list "
+      "(c13_pending_ok_every_step / _every_op_list, hypothesis d_inv only, an invariant), extracted and evaluated on the implementation's "
+      "snapshots (component disp_pending, generator gen_pending: two to four connects to one address, the earliest leaves first, then "
+      "more connects - the scenario of seeded C13-b, which overwrites a still-pending connect).")
+_more("C17", "SESSION 5, second half (Conn/C17_Trace*.v, C17_Pred2.v): c17_peer_fin_ok2 (corrected peer-FIN clause) THEOREM of every trace from "
+      "vsock_new, c17_peer_fin_guarded_trace, c17_peer_fin_oos_poll / _inseq_poll; regression theorems c17_fin_seq_regression / "
+      "c17_fin_covers_data_regression on the four D6 witnesses; new step predicate c17_fin_covers_data_ok (the only one that sees the "
+      "byte-loss variant of D6) evaluated on every implementation trace. c17_fin_seq_ok / c17_fin_covers_data_ok for EVERY trace: open.")
+_more("C04", "SESSION 5, second half (Conn/C04_Guard.v, C04_Step.v, C04_Consumed.v): c04_vsock_ack_guarded_trace and "
+      "c04_consumed_honest_guarded_trace - the two connection-level predicates are THEOREMS of every trace under the boolean guard "
+      "c04_peer_ok (at most WRAP_TOLERANCE sequence-carrying packets; no ST_DATA numbered at or above an ST_FIN the peer delivers); "
+      "c04_vsock_ack_or_d22_trace. FOUND (reproduced on the real code, open known finding D22): after the peer's FIN, data numbered beyond "
+      "the FIN that sat in the reassembly queue is counted and the ACK number overstates - hostile peer only. The check evaluates the "
+      "guarded predicates and replays the D22 witness.")
+_more("C01", "SESSION 5, second half (Pair/Pair_Refine*.v, 3000 lines): the pair -> data-path refinement is proved for EVERY pair step kind "
+      "(c01_poll_is_data_events, c01_pair_step_refines_dp, c01_pair_trace_refines_dp); c01_prefix_pair_trace_partial / "
+      "c01_dir_ok_pair_trace_partial: on every pair trace along which the direction stays live (reader not finished, peer FIN not accepted) "
+      "and under the data-path guards the prefix property and the extracted check hold. FOUND: c01_pair_guarded is FALSE "
+      "(c01_pair_guarded_refuted, reproduced on the real code: B reads 2047 of 1980 bytes) on a KF1-family trace the old classifier missed "
+      "(probe delivered, its ACK delayed, the RTO poll pops and re-cuts the probe while the transport is pending, the late ACK acknowledges "
+      "the never-sent re-cut segment) - the check now uses the widened class c01_kf1_class2 / c01_pair_guarded2 (pop seen on the sender's "
+      "fingerprints + a delivery of the popped probe).")
+_more("C06", "SESSION 5, second half (Conn/C06_Step2*.v): c06_rp_exit_ok is a THEOREM of every model trace (no hypothesis); "
+      "c06_stable_plen_ok_p (within one EMSGSIZE-free poll the same sequence number carries the same payload size unless it was a probe) "
+      "THEOREM of every trace and evaluated; the cross-poll guarded form c06_stable_plen_ok_g is proved under the open hypothesis SMH only.")
+_more("C02", "SESSION 5, second half: pair-tier component pair_settle - two real endpoints, a lossy phase (acknowledgements are what gets lost "
+      "most; no segment can use up its retransmission budget), then a settle phase in which every datagram is delivered for 34 s of "
+      "virtual time: the extracted c02_pair_settled_ok requires that no endpoint gave up and that each application read exactly what the "
+      "other was told was accepted (MONITORED: eventual delivery is not a theorem). FOUND (open known finding D23): there is no zero-window "
+      "probe / persist timer - when the peer's single window-update ACK is lost the sender stalls for good although the network delivers "
+      "everything from then on (classifier: the stalled writer ends with last_remote_window = 0). Step/trace theorems of branch pw-c02 "
+      "(c02_prompt write half, ...): see Props/C02.v.")
+
 ALL = ["C%02d" % i for i in range(1, 20)]
 NOT_APPLICABLE = {p: "check not built yet at this commit (planned: DESIGN.md section 6); not claimed"
                   for p in ALL if p not in CHECKS}
